@@ -256,6 +256,18 @@ def contains(t, pred) -> bool:
     return any(pred(x) for x in walk(t))
 
 
+def alternatives(t):
+    """Flatten JOIN / conditional terms into their alternative values."""
+    if t[0] == "join":
+        out = []
+        for a in t[1]:
+            out += alternatives(a)
+        return out
+    if t[0] == "ite":
+        return alternatives(t[2]) + alternatives(t[3])
+    return [t]
+
+
 def leaves(t):
     """Leaf atoms whose value a valuation must supply."""
     out = []
@@ -327,8 +339,10 @@ class Valuation:
     """Assigns integers to leaf atoms; uninterpreted terms get a value that is a deterministic
     function of (symbol, evaluated arguments), so equal arguments give equal results."""
 
-    def __init__(self, seed: int, assign=None, domain=None):
+    def __init__(self, seed: int, assign=None, domain=None, override=None, fields=None):
         self.seed = seed
+        self.override = dict(override or {})  # forces the value of arbitrary (also non-leaf) terms
+        self.fields = dict(fields or {})  # (struct, byte offset) -> value, for every instance of the struct
         self.assign = dict(assign or {})
         self.domain = domain  # callable(leaf, rng) -> int | None
         self.rng = random.Random(seed)
@@ -336,6 +350,8 @@ class Valuation:
     def leaf(self, t):
         if t in self.assign:
             return self.assign[t]
+        if self.fields and t[0] == "f" and (t[1], t[2]) in self.fields:
+            return self.fields[(t[1], t[2])]
         v = None
         if self.domain is not None:
             v = self.domain(t, random.Random(_h(self.seed, t)))
@@ -371,6 +387,8 @@ def default_domain(t, rng: random.Random) -> int:
 
 def ev(t, val: Valuation):
     """Evaluate term t. Raises EvalError when the valuation is outside the operators' domain."""
+    if val.override and t in val.override:
+        return val.override[t]
     k = t[0]
     if k == "c":
         return t[1]
@@ -451,7 +469,10 @@ def ev(t, val: Valuation):
     if k in ("tuple", "list"):
         return tuple(ev(x, val) for x in t[1])
     if k == "join":
-        return _h("join", tuple(sorted(repr(_key(ev(x, val))) for x in t[1])))
+        vals = [ev(x, val) for x in t[1]]
+        if all(_key(v) == _key(vals[0]) for v in vals[1:]):
+            return vals[0]
+        return _h("join", tuple(sorted(repr(_key(v)) for v in vals)))
     if k == "call":
         args = tuple(_key(ev(x, val)) for x in t[2])
         kws = tuple((a, _key(ev(v, val))) for a, v in t[3])
